@@ -35,7 +35,7 @@ def make_scenarios(ctx, count):
         if i < len(plan):
             mtu, n0 = plan[i]
         else:
-            mtu = rng.choice([576, 1500, rng.randint(576, 9216)])
+            mtu = G.pick_mtu(rng)
             n0 = rng.randint(1, G.cap_emit(mtu))
         cfg = G.rand_cfg(rng, mtu=mtu)
         net = G.Net(rng, cfg["mac"])
@@ -49,7 +49,14 @@ def make_scenarios(ctx, count):
             r = rng.random()
             n = n0 if j == 0 else rng.choice([1, 2, 3, rng.randint(1, G.cap_emit(mtu))])
             seq = rng.choice([1, 0xFFFF, 0x8000, rng.randint(1, 0xFFFF)])
-            if r < 0.75 or j == 0:
+            if 0.70 <= r < 0.75 and j > 0:
+                cap = G.cap_emit(mtu)
+                full, _ = G.f_emit(rng, net, m, seq=seq, n=cap, bridged=bridged)
+                tail = bytes([rng.randint(0, 1), 0]) + rng.choice(net.strangers) + net.own
+                b = bytearray((full + tail * 2)[:mtu])
+                struct.pack_into(">H", b, 32, cap + 1)
+                frames.append(bytes(b))
+            elif r < 0.75 or j == 0:
                 fr, _ = G.f_emit(rng, net, m, seq=seq, n=n, bridged=bridged)
                 frames.append(fr)
             else:
@@ -62,7 +69,9 @@ def make_scenarios(ctx, count):
                 carried = rng.choice([0, 1, 2])
                 small, _ = G.f_emit(rng, net, m, seq=seq, n=carried, bridged=bridged)
                 b = bytearray(small)
-                struct.pack_into(">H", b, 32, rng.choice([carried + 1, cap + 1, 0xFFFF, 0x8000, 1000]))
+                wrap16 = [(65536 * j + 13) // 14 + rng.randint(0, 30) for j in range(1, 14)]      # n*14 just past a multiple of 2^16
+                struct.pack_into(">H", b, 32, rng.choice([carried + 1, cap + 1, cap + 2, 0xFFFF, 0x8000, 0x4000, 1000, rng.choice(wrap16),
+                                                          rng.randint(cap + 1, 0xFFFF)]) & 0xFFFF)
                 frames.append(bytes(b))
         s = H.Scenario("e%d" % i, meta=dict(frames=frames, own=cfg["mac"], mtu=mtu, rxseed=cfg["rxseed"]))
         s.iface(0, **H.iface_kw(cfg)).glob(**G.global_kw(G.rand_global(rng, icon_size=100)))
